@@ -33,9 +33,12 @@ VARIABLES ocount,   \* clones of the original held by the foreign side
           inPoll,   \* a poll is in progress (the view waker exists)
           rec,      \* [Rec -> [rc : Nat, held : BOOLEAN, rel : Nat, made : BOOLEAN]]
           fw,       \* [FW -> [r : Rec \cup {0}, own : Thread]]
-          touched   \* number of operations that reached the original through a released inner clone
+          touched,  \* number of operations that reached the original through a released inner clone
+          seen      \* what the original saw of its own reference count (relative to the base) at the instant it
+                    \* was woken by the last action; -1 if the last action was not a wake.  A wake runs while the
+                    \* clone it goes through is still held: "nothing touches the original after [they] are gone"
 
-vars == <<ocount, owakes, inPoll, rec, fw, touched>>
+vars == <<ocount, owakes, inPoll, rec, fw, touched, seen>>
 
 NoRec == [rc |-> 0, held |-> FALSE, rel |-> 0, made |-> FALSE]
 Unmade == {r \in Rec : ~rec[r].made}
@@ -50,6 +53,7 @@ Init ==
   /\ rec = [r \in Rec |-> NoRec]
   /\ fw = [w \in FW |-> [r |-> 0, own |-> 1]]
   /\ touched = 0
+  /\ seen = -1
 
 (* the caller enters poll()/poll_next()/poll_ready()...: CRefWaker::from(cx.waker()) *)
 PollBegin == /\ ~inPoll /\ inPoll' = TRUE
@@ -123,7 +127,7 @@ Give(t, w, u) ==
   /\ fw' = [fw EXCEPT ![w].own = u]
   /\ UNCHANGED <<ocount, owakes, inPoll, rec, touched>>
 
-Do(e) ==
+Core(e) ==
   \/ e.op = "PollBegin"     /\ PollBegin
   \/ e.op = "PollEnd"       /\ PollEnd
   \/ e.op = "ViewClone"     /\ ViewClone(e.w)
@@ -134,16 +138,20 @@ Do(e) ==
   \/ e.op = "FDrop"         /\ FDrop(e.t, e.w)
   \/ e.op = "Give"          /\ Give(e.t, e.w, e.u)
 
+IsWake(e) == e.op \in {"ViewWakeByRef", "FWake", "FWakeByRef"}
+(* the original is woken before the handle that carries the wake is given up: it sees every clone still held *)
+Do(e) == Core(e) /\ seen' = IF IsWake(e) THEN ocount ELSE -1
+
 (* observation: reference count of the original relative to its base, its wake  *)
 (* counter, and which record each foreign waker points at (Waker::data())        *)
-Proj == [ocount |-> ocount, owakes |-> owakes, inPoll |-> inPoll,
+Proj == [ocount |-> ocount, owakes |-> owakes, inPoll |-> inPoll, seen |-> seen,
          fw |-> [w \in FW |-> fw[w].r]]
 
 (***************************************************************************)
 (* Properties (C19)                                                        *)
 (***************************************************************************)
 TypeOK ==
-  /\ ocount \in Int /\ owakes \in Nat /\ inPoll \in BOOLEAN
+  /\ ocount \in Int /\ owakes \in Nat /\ inPoll \in BOOLEAN /\ seen \in Int
   /\ \A w \in FW : fw[w].r \in Rec \cup {0} /\ fw[w].own \in Thread
 
 RcExact == \A r \in Rec : rec[r].rc = Cardinality({w \in FW : fw[w].r = r})
